@@ -87,6 +87,13 @@ Qed.
 Definition is_update_op (o : op) : bool :=
   match o with OUpdatesStruct | OUpdateColumnsStruct | OUpdatesMap | OUpdateColumnsMap => true | _ => false end.
 
+Lemma guarded_update_rows mk wh rows set x : In x (out_cells (guarded_update s mk wh rows set)) ->
+  In (c_row x) rows /\ In (c_col x, c_src x) set.
+Proof.
+  unfold guarded_update. destruct set as [|a l]; [contradiction|].
+  destruct (no_condition mk wh); [contradiction|]. apply do_update_rows.
+Qed.
+
 Lemma update_cells_permitted o selects omits ps stored mk wh x :
   is_update_op o = true ->
   In x (out_cells (run_op s table o selects omits ps stored mk wh)) ->
@@ -95,8 +102,8 @@ Lemma update_cells_permitted o selects omits ps stored mk wh x :
   /\ ((exists f, In f s /\ has_col f = true /\ c_col x = f_db f /\ updatable f = true)
       \/ lookup_field s (c_col x) = None).
 Proof.
-  intros Ho H. destruct o; try discriminate; cbn [run_op] in H; apply do_update_rows in H; destruct H as [H1 H2];
-    (split; [now apply targeted_spec|]).
+  intros Ho H. destruct o; try discriminate; cbn [run_op] in H; apply guarded_update_rows in H;
+    destruct H as [H1 H2]; (split; [now apply targeted_spec|]).
   - destruct (assign_struct_in s table selects omits false false _ _ _ H2) as (f & A & B & C & D & _). left; eauto.
   - destruct (assign_map_in s table Hwf selects omits false _ _ _ H2) as [(f & A & B & C & D & _)|(A & _)]; [left; eauto|now right].
   - destruct (assign_struct_in s table selects omits true false _ _ _ H2) as (f & A & B & C & D & _). left; eauto.
@@ -129,8 +136,8 @@ Lemma create_cells_permitted o selects omits ps stored mk wh x :
 Proof.
   intros Ho H. assert (H' : In x (new_rows s [] (sort_fields s (create_fields s
             (select_and_omit s table selects omits true false) ps)) ps 1001)).
-  { destruct Ho as [->| ->]; cbn [run_op] in H;
-      destruct (default_placeholder_error _ ps); try contradiction; exact H. }
+  { destruct Ho as [->| ->]; cbn [run_op] in H; (destruct ps as [|p0 ps0]; [contradiction|]);
+      destruct (default_placeholder_error _ (p0 :: ps0)); try contradiction; exact H. }
   destruct (new_rows_in _ _ _ _ _ H') as (f & Hf & C & R). split; [lia|].
   apply sort_fields_sub in Hf.
   - destruct (create_fields_creatable s table Hwf selects omits _ f Hf) as (A & B & D). exists f. auto.
